@@ -1,6 +1,6 @@
 #!/bin/bash
 cd /tmp/verif_dev
-for sd in 1 2 3 4 5 6; do for i in $(seq -w 1 20); do
+for sd in 7 8 9 11; do for i in $(seq -w 1 20); do
   out=$(VERIF_SEED=$sd ./check C$i quick 2>&1)
   echo "$out" | grep -q "^VIOLATION" && { echo "seed $sd C$i:"; echo "$out" | grep "^VIOLATION\|BROKEN" | head -3; }
   echo "$out" | tail -1
